@@ -119,12 +119,27 @@ def w_types(types):
     return out
 
 
+def all_types(types):
+    """the library registers a type in domain.types when it has a declaration line of its own; a supertype that is only
+    ever used as a parent ('car truck - vehicle') exists as the parent object of its children.  -> both kinds"""
+    ext = dict(types)
+    for v in list(types.values()):
+        t = getattr(v, "parent", None)
+        n = 0
+        while t is not None and t.name not in ext and n < 50:
+            ext[t.name] = t
+            t = t.parent
+            n += 1
+    return ext
+
+
 def w_domain(d):
+    types = all_types(d.types)
     return {
         "name": d.name,
         "requirements": list(d.requirements),
-        "types": w_types(d.types),
-        "type_chains": {k: w_type_chain(v) for k, v in d.types.items()},
+        "types": w_types(types),
+        "type_chains": {k: w_type_chain(v) for k, v in types.items()},
         "constants": {k: v.type.name for k, v in d.constants.items()},
         "predicates": {k: [t.name for t in v.signature.values()] for k, v in d.predicates.items()},
         "predicate_params": {k: list(v.signature.keys()) for k, v in d.predicates.items()},
